@@ -159,6 +159,8 @@ pub struct KnownFinding {
     pub classes: Vec<String>,
     /// the first difference must lie under a node with this tag (e.g. a component name)
     pub locus_contains: Vec<String>,
+    /// the minimised root source must match (for findings on raw, mutated sources)
+    pub source_regex: String,
 }
 
 pub fn load_known_findings() -> Vec<KnownFinding> {
@@ -191,6 +193,7 @@ pub fn load_known_findings() -> Vec<KnownFinding> {
             class_prefix: v.get("class_prefix").and_then(|x| x.as_str()).unwrap_or("").to_string(),
             classes: strs("classes"),
             locus_contains: strs("locus_contains"),
+            source_regex: v.get("source_regex").and_then(|x| x.as_str()).unwrap_or("").to_string(),
         });
     }
     out
